@@ -455,7 +455,11 @@ func coordinate(c *Check, tier string) int {
 	}
 	sort.Strings(ids)
 	for _, id := range ids {
-		fmt.Printf("KNOWN-FINDING: property=%s %s: %s (matched %d cases; e.g. %s)\n", c.ID, id, known[id].What, knownHits[id], oneLine(knownDetail[id], 300))
+		if l := known[id].Line; strings.HasPrefix(l, "KNOWN-FINDING: property="+c.ID+" ") {
+			fmt.Printf("%s [%s; matched %d cases; e.g. %s]\n", l, id, knownHits[id], oneLine(knownDetail[id], 240))
+		} else {
+			fmt.Printf("KNOWN-FINDING: property=%s %s: %s (matched %d cases; e.g. %s)\n", c.ID, id, known[id].What, knownHits[id], oneLine(knownDetail[id], 300))
+		}
 	}
 	rdir := filepath.Join(outDir(), "replays")
 	for i, v := range viol {
